@@ -202,9 +202,14 @@ impl<L: LanguageChildren> LanguageChildren for Bind<L> {
 
     fn weak_shape_impl(&mut self, m: &mut (SlotMap, u32)) {
         let s = self.slot;
+        // the binder shadows an outer slot of the same name only within its scope.
+        let outer = m.0.get(s);
         add_slot(&mut self.slot, m);
         self.elem.weak_shape_impl(m);
-        m.0.remove(s);
+        match outer {
+            Some(o) => m.0.insert(s, o),
+            None => m.0.remove(s),
+        }
     }
 }
 
@@ -272,18 +277,24 @@ pub trait Language: Debug + Clone + Hash + Eq + Ord {
 
     #[doc(hidden)]
     fn private_slot_occurrences_mut(&mut self) -> Vec<&mut Slot> {
-        let public = self.public_slot_occurrences();
+        // by position, not by name: a private slot may carry the same name as a public one (shadowing).
+        let public: HashSet<*const Slot> = self
+            .public_slot_occurrences_mut()
+            .into_iter()
+            .map(|x| x as *const Slot)
+            .collect();
         let mut out = self.all_slot_occurrences_mut();
-        out.retain(|x| !public.contains(x));
+        out.retain(|x| !public.contains(&(&**x as *const Slot)));
         out
     }
 
     #[doc(hidden)]
     fn private_slot_occurrences(&self) -> Vec<Slot> {
-        let public = self.public_slot_occurrences();
-        let mut out = self.all_slot_occurrences();
-        out.retain(|x| !public.contains(x));
-        out
+        let mut c = self.clone();
+        c.private_slot_occurrences_mut()
+            .into_iter()
+            .map(|x| *x)
+            .collect()
     }
 
     #[doc(hidden)]
